@@ -136,7 +136,7 @@ def gen_cases(ctx, amaps2, amaps_sim):
         c["origin"] = "no-Values"
         cases.append(c)
     # (E) every value of a 16-bit type for a sample of arrays
-    n16 = 40 if quick else 400
+    n16 = 16 if quick else 300
     pool = amaps2 + amaps_sim
     for i in range(n16):
         tn = ("uint16", "sint16")[i % 2]
@@ -169,6 +169,50 @@ def mismatch_detail(ev):
             for g in ev["tv"][:8]]
     return "tovalues(virtual) %s; items %s" % (
         segs, [(i["k"], i["lo"], i["hi"], i["s"]) for i in ev["items"][:6]])
+
+
+def corruption_selftest(ctx, events, verdicts):
+    """Corrupt one field of an accepted recorded vector in three ways; TLC
+    must reject each (shows that the trace spec bites)."""
+    import copy
+    pick = None
+    for ev, v in zip(events, verdicts):
+        strs = [i["s"] for i in ev["items"]]
+        if (v["ok"] and ev["ctor"] == "ok" and len(ev["items"]) >= 2 and
+                len(set(strs)) == len(strs) and len(ev["vals"]) == len(strs)
+                and any(g["ok"] for g in ev["tv"])
+                and ev["items"][0]["k"] in ("S", "R")):
+            pick = ev
+            break
+    if pick is None:
+        raise vlib.MachineryError("no accepted vector to corrupt")
+    a = copy.deepcopy(pick)
+    g = next(g for g in a["tv"] if g["ok"])
+    g["s"] = next(x for x in a["vals"] if x != g["s"])
+    b = copy.deepcopy(pick)
+    b["items"][0], b["items"][1] = b["items"][1], b["items"][0]
+    c = copy.deepcopy(pick)
+    rec = next(r for r in c["tb"] if r["k"] in ("S", "R"))
+    rec["hi"] += 1
+    if rec["k"] == "S":
+        rec["lo"] += 1
+    vs = ctx.validate_traces("ValueMapTrace", "ValueMapTrace.cfg",
+                             [[a], [b], [c]],
+                             label="self-test: corrupted recorded vectors "
+                             "must be rejected")
+    ctx.traces -= 3
+    ctx.events -= 3
+    want = ("Tovalues.EqualsClaims", "Items.EntriesInQualifierOrder",
+            "Tobinary.EntryOfString")
+    res = []
+    for name, v, w in zip(("tovalues result", "items order", "tobinary bound"),
+                          vs, want):
+        if v["ok"] or w not in v["clauses"]:
+            raise vlib.MachineryError(
+                "corrupted %s was not rejected by %s: %s" % (name, w, v))
+        res.append("corrupted %s -> rejected (%s)" % (name,
+                                                      ",".join(v["clauses"])))
+    ctx.extra["corruption_selftest"] = res
 
 
 def run(ctx):
@@ -232,6 +276,8 @@ def run(ctx):
     t2 = time.time()
     verdicts = validate(ctx, events, "vectors observed on pywbem.ValueMapping")
     t_val = time.time() - t2
+
+    corruption_selftest(ctx, events, verdicts)
 
     by_origin, by_type, by_ctor = {}, {}, {}
     nprobe = 0
